@@ -21,11 +21,12 @@ import (
 )
 
 type crCase struct {
-	Name  string `json:"name"`
-	Point string `json:"point"`
-	Proto string `json:"proto"`
-	How   string `json:"how"` // exit, kill
-	Jit   int    `json:"jitter_ms"`
+	Name   string `json:"name"`
+	Point  string `json:"point"`
+	Proto  string `json:"proto"`
+	How    string `json:"how"` // exit, kill
+	Jit    int    `json:"jitter_ms"`
+	Settle bool   `json:"settle"`
 }
 
 type crCall struct {
@@ -33,6 +34,7 @@ type crCall struct {
 	Res        string `json:"res"`
 	Ms         int64  `json:"ms"`
 	AfterCrash bool   `json:"after_crash"`
+	Racing     bool   `json:"racing"` // the plugin was still alive when the call began although it dies during startup
 	Err        string `json:"err,omitempty"`
 }
 
@@ -81,8 +83,19 @@ func runCrashCase(c crCase, bin, tmp string) map[string]interface{} {
 	}()
 	crashed := false // from now on calls are "after the crash"
 	var tCrash time.Time
+	preCrash := c.Point == "before_output" || c.Point == "mid_line" || c.Point == "after_line"
 	timed := func(op string, f func() error) error {
 		t0 := time.Now()
+		// A plugin that dies on its own during startup may still be alive (and even serving, for a
+		// moment) when a call begins: such a call races with the crash and may go either way.
+		racing := false
+		if preCrash && op != "start" {
+			// (gone = reaped by the client's wait goroutine; a zombie thread-group leader can still
+			// have threads that serve)
+			if !p.Client.Exited() {
+				racing = true
+			}
+		}
 		var err error
 		done := make(chan struct{})
 		go func() {
@@ -101,7 +114,7 @@ func runCrashCase(c crCase, bin, tmp string) map[string]interface{} {
 		case <-time.After(25 * time.Second):
 			err = fmt.Errorf("call did not return within 25 s")
 		}
-		cc := crCall{Op: op, Ms: time.Since(t0).Milliseconds(), AfterCrash: crashed, Res: "ok"}
+		cc := crCall{Op: op, Ms: time.Since(t0).Milliseconds(), AfterCrash: crashed && !racing, Racing: racing, Res: "ok"}
 		if err != nil {
 			cc.Res = "err"
 			cc.Err = truncate(err.Error(), 160)
@@ -117,6 +130,12 @@ func runCrashCase(c crCase, bin, tmp string) map[string]interface{} {
 	out["started_ok"] = err == nil
 	if preCrashPoint {
 		tCrash = time.Now()
+		if c.Settle {
+			// let the crash complete first, so that the calls below are after it for sure
+			for i := 0; i < 200 && !p.Client.Exited(); i++ {
+				time.Sleep(5 * time.Millisecond)
+			}
+		}
 	}
 	cerr := timed("client", func() error { var e error; cp, e = p.Client.Client(); return e })
 	if cerr == nil && cp != nil {
